@@ -16,7 +16,7 @@ CFG = {
                  "the Gallina term of the case; non-trivial = a token list of >= 3 tokens containing a delimiter/comment/raw token (lex), "
                  "a document of >= 2 items with at least one `-` marker (render), a set that is not one of the accepted base sets "
                  "(delims). Exhaustive sub-space (thorough): every document of <= 3 items over the item alphabet named in "
-                 "extra.exhaustive_space; the rest random documents of up to 14 items under 13 delimiter sets, their prefixes and "
+                 "extra.exhaustive_space; the rest random documents of up to 14 items under 15 delimiter sets, their prefixes and "
                  "single-character deletions, and a hand-written corpus of edge cases.",
     "trusted_base": TB_COMMON + [
         "axioms: none (every C08 theorem is 'Closed under the global context')",
